@@ -52,10 +52,21 @@ def gen(ch, prof):
                      "data": {"uid": uid}, "uid": uid, "file": g.rint(0, 5)})
     stats = []
     for i in range(g.rint(1, 3)):
-        stats.append({"pattern": g.pick(["increasing", "decreasing", "constant", "zero", "random"]), "n": g.rint(1, 8),
-                      "cpu": g.flip(0.8), "memory": g.flip(0.8)})
+        n = g.rint(1, 8)
+        procs = []
+        if g.flip(0.6):
+            for k in range(g.rint(1, 3)):
+                a = g.rint(0, n - 1)
+                procs.append({"name": f"job{k}", "pid": 5000 + 10 * i + k, "from": a, "to": g.rint(a, n - 1),
+                              "child": g.flip(0.3), "pattern": g.pick(["spiky", "spiky", "random", "zero", "decreasing", "increasing"])})
+        stats.append({"pattern": g.pick(["increasing", "decreasing", "constant", "zero", "random", "spiky"]), "n": n,
+                      "cpu": g.flip(0.8), "memory": g.flip(0.8), "procs": procs})
     return {"kind": "comp_events", "files": files, "more": more, "stats": stats, "res": res, "env": {}, "jobs": [], "groups": [],
             "stat_patterns": ["increasing", "decreasing", "constant", "zero", "random"]}
+
+
+def g_flip_ids(it, procs):
+    return bool(procs) and it % 3 == 1
 
 
 def ev_line(e):
@@ -179,19 +190,60 @@ def runner(scenario, prof, seed, trace=None, then_generate=False, props=()):
             w.probe("events_reconsolidated_after_more")
         # ---- statistics
         for si, st in enumerate(scenario["stats"]):
-            stats = ResourceMonitorStats(cpu=st["cpu"], memory=st["memory"], disk=False, network=False, process=False)
+            procs = st.get("procs") or []
+            stats = ResourceMonitorStats(cpu=st["cpu"], memory=st["memory"], disk=False, network=False, process=bool(procs))
             w.scenario["stat_patterns"] = [st["pattern"]]
             w.stat_patterns.clear()
+            for pr in procs:
+                for nm in (pr["name"], pr["name"] + "/child"):
+                    for stat in ("rss", "cpu_percent"):
+                        w.stat_patterns[(vp.id, f"proc:{si}:{nm}", stat)] = pr["pattern"]
             before = {k: len(v) for k, v in w.stats_served.items()}
             agg = ResourceMonitorAggregator(f"resource_monitor_batch_{si}_0", stats)
-            for _ in range(st["n"]):
-                agg.update_resource_stats()
+            for it in range(st["n"]):
+                ids = {}
+                w.stat_procs.clear()
+                w.stat_children.clear()
+                for pr in procs:
+                    if pr["from"] <= it <= pr["to"]:
+                        ids[pr["name"]] = pr["pid"]
+                        w.stat_procs[pr["pid"]] = f"{si}:{pr['name']}"
+                        if pr["child"]:
+                            w.stat_children[pr["pid"]] = [pr["pid"] + 5]
+                            w.stat_procs[pr["pid"] + 5] = f"{si}:{pr['name']}/child"
+                if g_flip_ids(it, procs):
+                    ids["ghost"] = 4999  # a job whose process is already gone: must be skipped
+                agg.update_resource_stats(ids=ids)
                 w.sleep(vp, 1.0)
             agg.finalize(out)
             path = os.path.join(out, "stats", f"resource_monitor_batch_{si}_0_resource_stats.json")
             with open(path) as fh:
                 data = json.load(fh)
             w.probe("stats_checked")
+            reported = {ent.get("name"): ent for ent in data if ent.get("type") == "Process"}
+            for pr in procs:
+                ser = {stat: list(w.stats_served.get((vp.id, f"proc:{si}:{pr['name']}", stat), [])) for stat in ("rss", "cpu_percent")}
+                ser["rss"] = [int(v * 1000) for v in ser["rss"]]
+                if pr["child"]:
+                    for stat in ser:
+                        ch_ = list(w.stats_served.get((vp.id, f"proc:{si}:{pr['name']}/child", stat), []))
+                        if stat == "rss":
+                            ch_ = [int(v * 1000) for v in ch_]
+                        ser[stat] = [a + b for a, b in zip(ser[stat], ch_)]
+                ent = reported.get(pr["name"])
+                if ent is None:
+                    bad("stats_process_missing", "a sampled job process is missing from the aggregated report", pr["name"])
+                    continue
+                w.probe("process_stats_checked")
+                for stat, vals in ser.items():
+                    for key, fn in (("minimum", min), ("maximum", max), ("average", lambda v: sum(v) / len(v))):
+                        got = ent.get(key, {}).get(stat)
+                        if got is None or abs(fn(vals) - got) > 1e-6 * max(1.0, abs(got)):
+                            bad("stats_process_" + key, f"aggregated per-process {key} differs from the samples taken",
+                                f"{pr['name']}.{stat}: reported {got}, samples {vals[:8]} true {fn(vals)} (pattern {pr['pattern']})")
+            for nm in reported:
+                if nm not in {pr["name"] for pr in procs}:
+                    bad("stats_process_unknown", "the aggregated report names a process that was never sampled", str(nm))
             for ent in data:
                 typ = {"CPU": "cpu", "Memory": "memory"}.get(ent.get("type"))
                 if typ is None or not st[typ]:
